@@ -50,7 +50,18 @@ func (p *Path) UsedDoubleQuotePathSelector() bool {
 
 // Extract extracts a specific JSON string.
 func (p *Path) Extract(data []byte, optFuncs ...DecodeOptionFunc) ([][]byte, error) {
-	return extractFromPath(p, data, optFuncs...)
+	parts, err := extractFromPath(p, data, optFuncs...)
+	if err != nil {
+		return nil, err
+	}
+	// what is handed out belongs to the caller alone: the evaluation returns windows of
+	// its working copy of the document (each with the rest of the copy as spare capacity),
+	// the caller's own slice for the path "$", and the package's constants for the
+	// literals true, false and null
+	for i, part := range parts {
+		parts[i] = append(make([]byte, 0, len(part)), part...)
+	}
+	return parts, nil
 }
 
 // PathString returns original JSON Path string.
